@@ -42,6 +42,7 @@ class Models:
     def __init__(self, prog, ifunc_sets=None, e3=True):
         self.P = prog
         self.ifunc_sets = ifunc_sets or {}
+        self.alts = {}          # ADT path -> (fn key, union field): chosen pairing alternative
         self.e3 = e3
         self.table = []
         self.cache = {}
@@ -94,6 +95,11 @@ class Models:
         R(r'(^<.* as vector::Vector>|impl vector::Vector for [^>]*>)::(splat|cmpeq|and|or|movemask|movemask_will_have_non_zero)$', m_vector_op)
         R(r'(^<.* as vector::MoveMask>|impl vector::MoveMask for [^>]*>)::(all_zeros_except_least_significant|first_offset|last_offset|count_ones|and|or|'
           r'has_non_zero|clear_least_significant_bit)$', m_mask_op)
+        # ---- iterators over slices and ranges: abstract index-range producers
+        R(r'^core::slice::<impl \[.*\]>::iter$', m_iter_new)
+        R(r'^core::slice::iter::<impl core::iter::IntoIterator for &\[.*\]>::into_iter$', m_iter_new)
+        R(r'^<(core::slice::Iter<.*>|core::iter::\w+<.*>|core::ops::Range<usize>) as core::iter::(Iterator|IntoIterator|DoubleEndedIterator)>::'
+          r'(rev|enumerate|copied|cloned|take|skip|into_iter|by_ref|next)(::<.*>)?$', m_iter_op)
         # Fn-trait shims for fn items: call the item
         R(r' as core::ops::(Fn|FnMut|FnOnce)<.*>>::(call|call_mut|call_once) - shim', m_fn_shim)
         # misc
@@ -107,6 +113,15 @@ class Models:
         if key in self.cache:
             return self.cache[key]
         m = None
+        if key.startswith('core::fmt::') or key.startswith('<core::fmt::') or ' as core::fmt::' in key:
+            # formatting machinery (only feeds panic messages / Debug output): opaque
+            if not (callee is not None and callee.local):
+                self.cache[key] = m_opaque
+                return m_opaque
+        if callee is not None and callee.krate in ('alloc', 'std') and not key.startswith('std_detect'):
+            # the allocator and std internals are outside the analysed crate: opaque (havoc), never inlined
+            self.cache[key] = m_opaque
+            return m_opaque
         for rx, fn in self.table:
             if rx.search(key):
                 m = fn
@@ -123,22 +138,100 @@ class Models:
 
     # ---- hooks used by the interpreter ------------------------------------------------
     def type_hook(self, I, st, tid, ty, name):
+        """fresh abstract value of an ADT that carries a type invariant (the table of DESIGN section 1)"""
         p = ty.get('path', '')
+        T = I.P.types
         if p in ('arch::generic::memchr::One', 'arch::generic::memchr::Two', 'arch::generic::memchr::Three'):
-            # type invariant I-SPLAT: v_i == splat(s_i) (established by `new`, checked by TYINV at construction)
-            n = {'arch::generic::memchr::One': 1, 'arch::generic::memchr::Two': 2, 'arch::generic::memchr::Three': 3}[p]
+            # I-SPLAT: v_i == splat(s_i) (established by `new`, checked by TYINV at construction)
             fields = ty['variants'][0]['fields']
             vals = [None] * len(fields)
             ss = {}
             for i, f in enumerate(fields):
-                if I.P.types[f['ty']]['kind'] == 'int':
-                    vals[i] = I.fresh_int(st, I.P.types[f['ty']], f['name'])
+                if T[f['ty']]['kind'] == 'int':
+                    vals[i] = I.fresh_int(st, T[f['ty']], f['name'])
                     ss[f['name'][1:]] = vals[i]
             for i, f in enumerate(fields):
                 if vals[i] is None:
-                    s = ss.get(f['name'][1:])
-                    vals[i] = TermV(('splat', s.e)) if s is not None else TermV(('vec', fresh('vec')))
+                    sv = ss.get(f['name'][1:])
+                    vals[i] = TermV(('splat', sv.e)) if sv is not None else TermV(('vec', fresh('vec')))
             return AdtV(tid, 0, vals)
+        if p == 'arch::generic::memchr::Iter':
+            # I-ITER: original_start <= start <= end, all inside one live haystack
+            rid = I.new_region(st, 'iter_haystack')
+            reg = I.regions[rid]
+            fields = ty['variants'][0]['fields']
+            ptr_fields = [i for i, f in enumerate(fields) if T[f['ty']]['kind'] == 'ptr']
+            if len(ptr_fields) != 3:
+                return None
+            syms = [fresh(fields[i]['name']) for i in ptr_fields]
+            st.store.add_le(-V(syms[0]))
+            st.store.add_le(V(syms[0]) - V(syms[1]))
+            st.store.add_le(V(syms[1]) - V(syms[2]))
+            st.store.add_le(V(syms[2]) - V(reg.L))
+            vals = []
+            for i, f in enumerate(fields):
+                if i in ptr_fields:
+                    vals.append(PtrV(rid, V(syms[ptr_fields.index(i)])))
+                else:
+                    vals.append(I.zst_value(f['ty']))
+            return AdtV(tid, 0, vals)
+        if p == 'arch::generic::packedpair::Finder':
+            # I-PP: min_haystack_len >= max(index1, index2) + V::BYTES
+            fields = ty['variants'][0]['fields']
+            vals = []
+            vbytes = None
+            for f in fields:
+                ft = T[f['ty']]
+                if ft['kind'] == 'adt' and ft.get('simd'):
+                    vbytes = ft.get('size')
+            pair_v, mhl = None, None
+            for f in fields:
+                ft = T[f['ty']]
+                if ft['kind'] == 'adt' and ft.get('simd'):
+                    vals.append(TermV(('vec', fresh('vec'))))
+                elif ft['kind'] == 'int':
+                    mhl = I.fresh_int(st, ft, f['name'])
+                    vals.append(mhl)
+                else:
+                    pv = I.fresh_of_type(st, f['ty'], f['name'], 1)
+                    pair_v = pv
+                    vals.append(pv)
+            if vbytes and mhl is not None and isinstance(pair_v, AdtV) and pair_v.fields:
+                for x in pair_v.fields:
+                    if isinstance(x, IntV):
+                        st.store.add_le(x.e + vbytes - mhl.e)
+            return AdtV(tid, 0, vals)
+        if p == 'core::ptr::non_null::NonNull':
+            # NonNull<[T]> / NonNull<T> inside an owning container (Box): valid, non-null memory
+            inner = T[ty['variants'][0]['fields'][0]['ty']]
+            if inner['kind'] == 'ptr':
+                to = T[inner['to']]
+                if to['kind'] in ('slice', 'str'):
+                    esz = T[to['elem']].get('size', 1) if to['kind'] == 'slice' else 1
+                    rid = I.new_region(st, name + '_box')
+                    n = fresh(name + '_len')
+                    st.store.add_le(-V(n))
+                    st.store.add_eq(V(n) * esz - V(I.regions[rid].L))
+                    return AdtV(tid, 0, [SliceV(PtrV(rid, ZERO), V(n), esz)])
+        alt = self.alts.get(p)
+        if alt is not None:
+            # I-SRCH / I-PRE: `call` is paired with the active field of `kind` (one alternative per analysis variant)
+            fn_key, ufield = alt
+            fields = ty['variants'][0]['fields']
+            vals = []
+            for f in fields:
+                ft = T[f['ty']]
+                if ft['kind'] == 'fnptr':
+                    vals.append(FnV([fn_key]))
+                elif ft['kind'] == 'adt' and ft.get('adt_kind') == 'union':
+                    uf = ft['variants'][0]['fields'][ufield]
+                    vals.append(UnionV(f['ty'], ufield, I.fresh_of_type(st, uf['ty'], uf['name'], 1)))
+                else:
+                    vals.append(I.fresh_of_type(st, f['ty'], f['name'], 1))
+            v = AdtV(tid, 0, vals)
+            if p == 'memmem::searcher::Prefilter':
+                pass
+            return v
         return None
 
     def on_aggregate(self, I, fr, st, rv, val, loc):
@@ -217,6 +310,10 @@ class Models:
                         return True
         return False
 
+    def apply_summary(self, I, fr, st, t, key, callee, args, ret):
+        from . import summaries
+        return summaries.apply(I, fr, st, t, key, callee, args, ret)
+
     def indirect_unknown(self, I, fr, st, t, fv, args):
         return None
 
@@ -224,6 +321,10 @@ class Models:
 # ---------------------------------------------------------------------------- helpers
 def ret1(st, v):
     return [(st, v)]
+
+
+def m_opaque(I, fr, st, t, args, key):
+    return ret1(st, I.havoc_call(fr, st, t, args, key))
 
 
 def m_identity0(I, fr, st, t, args, key):
@@ -581,10 +682,16 @@ def m_size_of(I, fr, st, t, args, key):
 
 def m_atomic_load(I, fr, st, t, args, key):
     a = args[0]
+    path = None
     if isinstance(a, TermV) and a.t[0] == 'static':
-        fs = I.models.ifunc_sets.get(a.t[1])
-        if fs:
-            return ret1(st, FnV(fs))
+        path = a.t[1]
+    elif isinstance(a, RefV) and isinstance(a.lv, LVObj) and isinstance(a.lv.obj, tuple) and a.lv.obj[0] == 'static':
+        path = a.lv.obj[1]
+    fs = I.models.ifunc_sets.get(path) if path else None
+    if fs:
+        # IFUNC-SET: every value any thread can ever observe in this static
+        return ret1(st, FnV(fs))
+    I.note(f"atomic load from an untracked static in {fr.inst.path}")
     return ret1(st, FnV(None))
 
 
@@ -854,3 +961,120 @@ def nz_record(preds, t, val):
         if val and t[0] in ('and', 'mand'):
             nz_record(preds, t[1], True)
             nz_record(preds, t[2], True)
+
+
+# ---------------------------------------------------------------------------- iterators
+def iter_tid(base, rev=False, copied=False, enum=False):
+    return ('iter', base, rev, copied, enum)
+
+
+def to_iter(I, st, v):
+    if isinstance(v, AdtV) and isinstance(v.tid, tuple) and v.tid[0] == 'iter':
+        return v
+    if isinstance(v, AdtV) and not isinstance(v.tid, tuple):
+        ty = I.P.types[v.tid]
+        if ty.get('path') == 'core::ops::Range' and v.fields is not None:
+            return AdtV(iter_tid('range'), 0, [IntV(I.as_int(st, v.fields[0])), IntV(I.as_int(st, v.fields[1])), AdtV(v.tid, 0, []), IntV(ZERO)])
+    return None
+
+
+def m_iter_new(I, fr, st, t, args, key):
+    s_ = as_slice(I, fr, st, args[0], t['loc'])
+    if s_ is None:
+        return None
+    return ret1(st, AdtV(iter_tid('slice'), 0, [IntV(ZERO), IntV(s_.n), s_, IntV(ZERO)]))
+
+
+def m_iter_op(I, fr, st, t, args, key):
+    name = re.search(r'>::(\w+)(::<.*>)?$', key).group(1)
+    a0 = args[0]
+    ref = None
+    if isinstance(a0, RefV):
+        ref = a0
+        a0 = I.load(fr, st, ref.lv, None, t['loc'])
+    it = to_iter(I, st, a0)
+    if it is None:
+        I.note(f"iterator operation {name} on an untracked iterator value in {fr.inst.path}")
+        return None if False else ret1(st, I.havoc_call(fr, st, t, args, key))
+    _, base, rev, copied, enum = it.tid
+    lo, hi, bv, eoff = it.fields[0].e, it.fields[1].e, it.fields[2], it.fields[3].e
+
+    def mk(lo=lo, hi=hi, rev=rev, copied=copied, enum=enum, eoff=eoff):
+        return AdtV(iter_tid(base, rev, copied, enum), 0, [IntV(lo), IntV(hi), bv, IntV(eoff)])
+
+    if name in ('into_iter', 'by_ref'):
+        return ret1(st, a0 if name == 'into_iter' else args[0])
+    if name == 'rev':
+        if enum:
+            raise Unsupported('rev() after enumerate() is not modelled')
+        return ret1(st, mk(rev=not rev))
+    if name in ('copied', 'cloned'):
+        return ret1(st, mk(copied=True))
+    if name == 'enumerate':
+        if rev:
+            raise Unsupported('enumerate() after rev() is not modelled')
+        return ret1(st, mk(enum=True, eoff=lo))
+    if name in ('take', 'skip'):
+        n = I.as_int(st, args[1])
+        out = []
+        # remaining length is hi - lo (>= 0 or empty)
+        if name == 'take':
+            cand = (lo + n) if not rev else (hi - n)
+            # new bound = min(hi, lo+n)   resp.  max(lo, hi-n)
+            a, b = (cand, hi) if not rev else (lo, cand)
+        else:
+            cand = (lo + n) if not rev else (hi - n)
+            a, b = (cand, hi) if not rev else (lo, cand)
+        # decide  cand <= hi (not rev)  /  cand >= lo (rev)
+        cond = ('le', cand - hi) if not rev else ('le', lo - cand)
+        for truth in (True, False):
+            at = cond if truth else negate(cond)
+            if I.refuted(st, at):
+                continue
+            s2 = st.copy()
+            if not I.assume(s2, at):
+                continue
+            if name == 'take':
+                v = mk(hi=cand) if (truth and not rev) else (mk(lo=cand) if (truth and rev) else mk())
+            else:
+                if truth:
+                    v = mk(lo=cand) if not rev else mk(hi=cand)
+                else:
+                    v = mk(lo=hi) if not rev else mk(hi=lo)      # skipped everything: empty
+            out.append((s2, v))
+        return out
+    if name == 'next':
+        tid = opt_tid_of_dest(I, fr, t)
+        oty = I.P.types[tid]
+        item_tid = oty['variants'][1]['fields'][0]['ty']
+        out = []
+        nonempty = ('le', lo - hi + 1)
+        if not I.refuted(st, nonempty):
+            s1 = st.copy()
+            if I.assume(s1, nonempty):
+                idx = lo if not rev else hi - 1
+                newit = mk(lo=lo + 1) if not rev else mk(hi=hi - 1)
+                if base == 'slice':
+                    ptr = PtrV(bv.ptr.r, bv.ptr.off + idx * bv.esz)
+                    if copied:
+                        inner = I.read_mem(fr, s1, ptr, _elem_tid(I, item_tid, enum), t['loc'], aligned=False, why='iter-copied')
+                    else:
+                        inner = ptr
+                else:
+                    inner = IntV(idx)
+                item = AdtV(item_tid, 0, [IntV(idx - eoff), inner]) if enum else inner
+                if ref is not None:
+                    I.store_lv(fr, s1, ref.lv, newit, None, t['loc'])
+                out.append((s1, mk_option(I, tid, item)))
+        if not I.entailed(st, nonempty):
+            s2 = st.copy()
+            if I.assume(s2, ('le', hi - lo)):
+                out.append((s2, mk_option(I, tid, None)))
+        return out
+    return None
+
+
+def _elem_tid(I, item_tid, enum):
+    if enum:
+        return I.P.types[item_tid]['fields'][1]
+    return item_tid
